@@ -218,6 +218,17 @@ class RegionHarness(Harness):
     want_ta = {None: styles.TextAlignType.center, "left": styles.TextAlignType.start, "right": styles.TextAlignType.end,
                "start": styles.TextAlignType.start, "center": styles.TextAlignType.center, "end": styles.TextAlignType.end}[ta]
     ex.prove(r.get_style(SP.TextAlign) is want_ta, "C11:text-align", det)
+    if pz is not None:
+      # the cue box is anchored at the position along the writing direction (WebVTT 6.1 "x/y-position"): its line-left
+      # edge, centre or line-right edge sits on the position, whatever the size; the position alignment defaults from
+      # the text alignment (left/start: line-left, right/end: line-right, otherwise centre)
+      eff_pa = pa if pa in ("line-left", "center", "line-right") else \
+        {"left": "line-left", "start": "line-left", "right": "line-right", "end": "line-right"}.get(ta, "center")
+      k = {"line-left": RV(0), "center": RV(Fraction(1, 2)), "line-right": RV(1)}[eff_pa]
+      if vert:
+        ex.prove(oy == zreal(pz) - k * h, "C11:position-anchors-box", dict(det, pos_align=eff_pa))
+      else:
+        ex.prove(ox == zreal(pz) - k * w, "C11:position-anchors-box", dict(det, pos_align=eff_pa))
     if lk:
       want_da = {None: styles.DisplayAlignType.before, "start": styles.DisplayAlignType.before, "center": styles.DisplayAlignType.center,
                  "end": styles.DisplayAlignType.after}[la]
@@ -419,7 +430,7 @@ class TokenizerHarness(Harness):
 
 register(TokenizerHarness())
 
-TOKENS_ALL = ["x", "<b>", "</b>", "<i>", "</i>", "<u>", "</u>", "<c.loud.red>", "<c.bg_blue.yellow>", "</c>", "<v Bob>", "</v>", "<lang en>", "</lang>",
+TOKENS_ALL = ["x", " ", "<b>", "</b>", "<i>", "</i>", "<u>", "</u>", "<c.loud.red>", "<c.bg_blue.yellow>", "</c>", "<v Bob>", "</v>", "<lang en>", "</lang>",
               "<ruby>", "</ruby>", "<rt>", "</rt>", "<00:00:01.500>", "y\nz", "&amp;", "&lt;", "<00:00:01>"]
 # quick tier: one representative per tag family (u/v/lang end tags and &lt; only in the thorough tier)
 TOKENS_QUICK = [t for t in TOKENS_ALL if t not in ("<u>", "</u>", "</v>", "</lang>", "&lt;")]
